@@ -492,7 +492,7 @@ def exec_stream(ctx, cases: List[Dict[str, Any]], report: bool = True) -> List[D
     ATLAS also: one bank missing) and evaluate ExecSpec on the log."""
     from c06_lib import cppmock
 
-    jobs = []
+    todo = []
     for c in cases:
         im = run_impl(c)
         if im.get("rejected"):
@@ -501,14 +501,21 @@ def exec_stream(ctx, cases: List[Dict[str, Any]], report: bool = True) -> List[D
         us = [u for u, _ in uses_of(c)]
         wanted = [[decl[u["name"]][0], u["args"][0]["s"]] for u in us]
         types = sorted({decl[u["name"]] for u in us}, key=lambda x: (x[0], x[1] or ""))
+        if any(("\n" in b or "|" in b or "\x1f" in b) for _, b in wanted):
+            continue
         fails_list: List[List[str]] = [[]]
         if c["backend"] == "atlas":
             fails_list.append([ctx.rng.choice(us)["args"][0]["s"]])
         for fails in fails_list:
-            if any(("\n" in b or "|" in b or "\x1f" in b) for _, b in wanted):
-                continue
-            r = cppmock.run_job(c["backend"], im["_files"], im["includes"], _FIXED.get(c["backend"], []), types, fails)
-            jobs.append((c, wanted, fails, r))
+            todo.append((c, wanted, fails, im, types))
+    from concurrent.futures import ThreadPoolExecutor
+
+    def one(t):
+        c, wanted, fails, im, types = t
+        return (c, wanted, fails, cppmock.run_job(c["backend"], im["_files"], im["includes"], _FIXED.get(c["backend"], []), types, fails))
+
+    with ThreadPoolExecutor(max_workers=6) as ex:
+        jobs = list(ex.map(one, todo))
     reqs = []
     for c, wanted, fails, r in jobs:
         rq = [l.split("|") for l in r["log"] if l.startswith("REQUEST|")]
@@ -803,9 +810,9 @@ def run(ctx):
     tables_stream(ctx)
     tablechecks_stream(ctx)
     validate_stream(ctx)
-    subst_stream(ctx, 1500 if ctx.tier == "quick" else 20000)
+    subst_stream(ctx, 1500 if ctx.tier == "quick" else 12000)
     all_recs = judge_jobs(ctx, "systematic", systematic_cases(ctx))
-    n = 700 if ctx.tier == "quick" else 9000
+    n = 700 if ctx.tier == "quick" else 6000
     cases = []
     for i in range(n):
         err = ctx.rng.choice(ERRORS) if ctx.rng.random() < 0.22 else None
@@ -816,7 +823,7 @@ def run(ctx):
     if ctx.tier == "thorough":
         # executed-artefact oracle on jobs of the clean domain (faulty ones are refused before any code exists)
         good = [r["case"] for r in all_recs if not r["bad"] and r["ok"] and not r["impl"].get("rejected") and all(r["spec"].get("filters", {}).values())]
-        sample = [c for c in good if len(uses_of(c)) == 1][:18] + [c for c in good if len(uses_of(c)) > 1][:52]
+        sample = [c for c in good if len(uses_of(c)) == 1][:15] + [c for c in good if len(uses_of(c)) > 1][:30]
         exec_stream(ctx, sample)
         ctx.check_time()
     ctx.extra_cov["exhaustive"] = False
